@@ -25,6 +25,8 @@ import ExoModel.Lemmas.StorageSink
 import ExoModel.Lemmas.StorageExpand
 import ExoModel.Lemmas.StorageDims
 import ExoModel.Lemmas.StorageReorderAlloc
+import ExoModel.Lemmas.StorageStage3
+import ExoModel.Lemmas.StorageReuse
 
 set_option linter.unusedSectionVars false
 namespace Exo.C01S
@@ -734,5 +736,118 @@ example : Rw.reorderStmtsAlloc Stg.Ex.prog = some Stg.Ex.prog' := by rfl
 theorem reorder_stmts_alloc_needs_notMentioned :
     ¬ BlockRefW Stg.Ex.cexDown Stg.Ex.cexDown' ∧ ¬ BlockRefW Stg.Ex.cexDown' Stg.Ex.cexDown :=
   ⟨Stg.Ex.reorder_alloc_down_needs_notMentioned, Stg.Ex.reorder_alloc_up_needs_notMentioned⟩
+
+/-! ## Part 7 — `stage_mem` (`DoStageMem`; shapes `Rw.stageMemAll` / `Rw.stageMem`, ExoModel/RewriteStage.lean)
+
+`B ; rest`  ↦  `xs : T[hi - lo …] ; copy-in ; B[x[idx] ↦ xs[idx - lo]] ; copy-out ; rest`.
+Simulation relation (Lemmas/StorageStage1–2): same layout (the original is first given the unused
+allocation of `xs`), two special buffers — the staging buffer holds the current contents of the
+window cells (`C : cell of x ↦ cell of xs`), the right-hand `x` is stale on the window and equal
+elsewhere.  Stage mode `Stg.Stage.execL_stage` (full statement language, callee bodies in identity
+mode); the rest of the block runs by `Reidx.execL_id`. -/
+
+/-- **`stage_mem`**, both copy nests, every access redirected: if the original block runs, the
+    staged block runs and ends in the same state.  Semantic side conditions (`Stg.StageHyp`,
+    `Stg.StoreOK`): `x` is bound to a view `vx` and NO OTHER view in scope points into its buffer
+    (no window alias — `stage_alias_unsound`); the window bounds evaluate (`lov`) and the extents
+    are positive; every access of the original run of `B` to `x`'s buffer is a window cell
+    (`AccIn … (DC C)` on the dynamic footprint: `Check_Access_In_Window`); the geometry `StAcc`
+    (a redirected access hits the image cell); the copy-in nest establishes and the copy-out nest
+    discharges the relation (`LoadOK`, `StoreOK`: proved for one-dimensional windows, see below).
+    Syntactic guard `Rw.stageGuard`: `x` occurs in `B` only as the buffer of data reads and
+    `assign`/`reduce` targets (not in window expressions, call arguments — `stage_call_unsound` —,
+    `stride`, index/control expressions), the lower window bounds are `envOnly` and mention no loop
+    variable of `B`, `xs` is fresh.  `_partial`: `accum = true`, the write-only variant without
+    copy-in (`stage_writeonly_unsound` shows what it needs), accesses left un-redirected, safety
+    guards and nests of depth ≥ 2 (as hypotheses `LoadOK`/`StoreOK` only). -/
+theorem stage_mem_partial {V : Type} [DataAlg V] (ext : String → List V → V)
+    (x xs : Sym) (w : List WAcc) (B rest load store : List Stmt)
+    (σ : State V) (hvo : ViewsOk σ) (hg : Rw.stageGuard x xs w B = true)
+    (hrest : ∀ y ∈ namesL rest, y ≠ xs) (vx : View) (szs lov : List Int) (C : Nat → Option Nat)
+    (H : Stg.StageHyp ext x xs w B load σ vx szs lov C)
+    (hstore : Stg.StoreOK ext store B x xs vx.buf σ.heap.length C
+      (Stg.pvOf xs vx (Stg.vxsOf σ szs)) (Stg.allocSt σ xs szs)) :
+    Fwd Eq (execB ext (.alloc xs (Rw.stageShape w) :: (B ++ rest)) σ)
+      (execB ext (.alloc xs (Rw.stageShape w) ::
+        (load ++ (Rw.stageL x xs w B ++ (store ++ rest)))) σ) :=
+  Stg.stage_mem_fwd_partial ext x xs w B rest load store σ hvo hg hrest vx szs lov C H hstore
+
+/-- … as a refinement between well-scoped states, for the shape `Rw.stageMemAll` (read + write) -/
+theorem stage_mem_ref_partial (x xs : Sym) (w : List WAcc) (n : Nat) (iters : List Sym)
+    (gl gs : Option Expr) (ss r : List Stmt)
+    (h : Rw.stageMemAll x xs w n iters false true true gl gs ss = some r)
+    (hg : Rw.stageGuard x xs w (ss.take n) = true) (hrest : ∀ y ∈ namesL (ss.drop n), y ≠ xs)
+    (hsem : Stg.StageSem x xs w (ss.take n) (Rw.stageLoad x xs w iters false gl)
+      (Rw.stageStore x xs w iters false gs) ss) :
+    BlockRefW ss r :=
+  Stg.stage_mem_refW_partial x xs w n iters gl gs ss r h hg hrest hsem
+
+/-- the READ-ONLY case (copy-in, no copy-out): complete modulo the same hypotheses without `StoreOK` -/
+theorem stage_mem_readonly_partial (x xs : Sym) (w : List WAcc) (n : Nat) (iters : List Sym)
+    (gl gs : Option Expr) (ss r : List Stmt)
+    (h : Rw.stageMemAll x xs w n iters false true false gl gs ss = some r)
+    (hg : Rw.stageGuard x xs w (ss.take n) = true) (hrest : ∀ y ∈ namesL (ss.drop n), y ≠ xs)
+    (hsem : Stg.StageSem x xs w (ss.take n) (Rw.stageLoad x xs w iters false gl) [] ss) :
+    BlockRefW ss r :=
+  Stg.stage_mem_readonly_refW_partial x xs w n iters gl gs ss r h hg hrest hsem
+
+/-- ONE-DIMENSIONAL window over a unit-stride view: NO geometry or copy-nest hypothesis left
+    (`Stg.stAcc_1d`, `Stg.loadOK_1d`, `Stg.storeOK_1d` by induction on the iteration count);
+    `Stg.Stage1dSem`: in every well-scoped state in which the block runs, `x` is bound to a 1-d
+    unit-stride view that is the only view into its buffer, `0 ≤ lo < hi ≤ n`, and every access of
+    the original run to that buffer lies in `[lo, hi)` -/
+theorem stage_mem_1d_partial (x xs i : Sym) (lo hi : Expr) (n : Nat) (ss r : List Stmt)
+    (h : Rw.stageMemAll x xs [.interval lo hi] n [i] false true true none none ss = some r)
+    (hg : Rw.stageGuard x xs [.interval lo hi] (ss.take n) = true)
+    (hhi : hi.envOnly = true) (hilo : lo.occC i = false)
+    (hrest : ∀ y ∈ namesL (ss.drop n), y ≠ xs)
+    (hsem : Stg.Stage1dSem x xs lo hi (ss.take n) ss) : BlockRefW ss r :=
+  Stg.stage_mem_1d_refW_partial x xs i lo hi n ss r h hg hhi hilo hrest hsem
+
+/-- non-vacuity: `for i in 0..4: y[i] = x[i+1] * 2` staged on `x[1:5]`, every hypothesis discharged
+    on a concrete state (the access hypothesis by the executable `Stg.accInB`) -/
+example := @Stg.StageEx.ex_stage_fwd
+
+/-- the three recorded findings as kernel-checked witnesses (the `after` programs are what
+    `Rw.stageMemAll` — i.e. the real code — builds):
+    a read through a window alias of the staged buffer sees the stale buffer;
+    a window of the staged buffer passed to a callee that writes it is redirected without copy-out;
+    a write-only block without copy-in stores unwritten (poison) cells back -/
+theorem stage_mem_unsound_witnesses :
+    ¬ BlockRefW Stg.StageEx.aliasBefore Stg.StageEx.aliasAfter ∧
+    ¬ BlockRefW Stg.StageEx.callBefore Stg.StageEx.callAfter ∧
+    ¬ BlockRefW Stg.StageEx.woBefore Stg.StageEx.woAfter :=
+  ⟨Stg.StageEx.stage_alias_unsound, Stg.StageEx.stage_call_unsound,
+   Stg.StageEx.stage_writeonly_unsound⟩
+
+/-! ## Part 8 — `reuse_buffer` (`DoReuseBuffer`; shape `Rw.reuseBuffer` = deletion of the allocation
+    + `Rw.renameL y x`) -/
+
+/-- `x : T[sh] ; mid ; y : T[sh] ; rest`  ⊑  `x : T[sh] ; mid ; rest[y ↦ x]` when both allocations
+    are in the SAME block (`reuse_buffer_unsound_witnesses` otherwise), `mid` defines nothing, `x` is
+    dead in the strongest sense (`rest` does not mention it), the extents are positive literals,
+    and `y` is used in `rest` only as the buffer of data reads and `assign`/`reduce` targets
+    (`Rw.reuseOkL`; `_partial`: windows of `y`, `y` as call argument, `stride(y,_)` excluded).
+    Why true: `y` starts all poison; the renamed accesses see the old, dead values of `x`, and
+    poison is refined by anything (cross relation `Stg.Reuse.XR`). -/
+theorem reuse_buffer_partial (x y : Sym) (sh : List Expr) (mid rest : List Stmt)
+    (hlit : posLits sh = true) (hxy : x ≠ y) (hmid : noDefs mid = true)
+    (hx : ∀ z ∈ namesL rest, z ≠ x) (hok : Rw.reuseOkL y rest = true) :
+    BlockRefW (.alloc x sh :: mid ++ .alloc y sh :: rest)
+      (.alloc x sh :: mid ++ Rw.renameL y x rest) :=
+  Stg.reuse_buffer_block_partial x y sh mid rest hlit hxy hmid hx hok
+
+/-- the guarded shape anywhere in a procedure (`k` = number of statements between the allocations) -/
+theorem reuse_buffer_in_procedure_partial (k : Nat) (path : Rw.Path) (body body' : List Stmt)
+    (h : Rw.rewriteAt (Rw.reuseBufferBlock k) path body = some body') (nm : String)
+    (args : List FnArg) (preds : List Expr) :
+    EquivOn WellScoped (fun _ => False) (.mk nm args preds body) (.mk nm args preds body') :=
+  Stg.reuse_buffer_equiv_partial k path body body' h nm args preds
+
+/-- `x` still live (`z[0]` is 6 before and 2 after); the target allocation in another scope (the
+    recorded finding: scope error after the rewrite) -/
+theorem reuse_buffer_unsound_witnesses :
+    ¬ BlockRefW Stg.ruLiveBefore Stg.ruLiveAfter ∧ ¬ BlockRefW Stg.ruScopeBefore Stg.ruScopeAfter :=
+  ⟨Stg.reuse_buffer_live_unsound, Stg.reuse_buffer_scope_unsound⟩
 
 end Exo.C01S
